@@ -60,9 +60,25 @@ def prime():
 
 # --------------------------------------------------------------------------
 
+def _generate_tiny(rw, rf):
+    """Two samples per channel, handed over as a list / tuple of channels (unambiguous: rows are channels) or as a
+    2x2 array (documented order: 2xN first).  Only single-bin analyses are possible on such a record."""
+    data = {"N": 2, "channels": 2, "recipe": "noise", "rng": rw.randrange(2 ** 31), "scale": rw.choice([1.0, 1e3]), "offset": rw.choice([0.0, 1.0]), "coupling": 0.5}
+    layout = rw.choice(["list_arrays", "tuple_arrays", "list_lists", "2xN", "fortran"])
+    dtype = rw.choice(["f8", "f8", "f4", "i2"]) if layout != "list_lists" else "f8"
+    cfg = {"fs": 2.0, "olap": 0.0, "bmin": 1.0, "Lmin": 1, "Jdes": 3, "Kdes": 1, "order": rw.choice([-1, 0]), "win": rw.choice(["ones", "ramp", "hann"]),
+           "psll": 100, "scheduler": "ltf", "num_patch_pts": None, "band": None, "force_target_nf": False,
+           "backend": rw.choice(["numba", "numpy"])}
+    return {"world": {"world": "real-numba" if cfg["backend"] == "numba" else "numpy", "threads": 2, "chunksize": 0, "chunk": None, "sched": 1},
+            "data": data, "cfg": cfg, "layout": layout, "dtype": dtype, "faults": [], "amp_band": None, "tiny": True,
+            "ops": [["construct"], ["single", rw.choice([0.0, 0.25, 0.5]), rw.choice([1, 2])]], "clock": None}
+
+
 def generate(seed, tier):
     rw = R.stream(seed, "workload")
     rf = R.stream(seed, "faults")
+    if rw.random() < 0.01:
+        return _generate_tiny(rw, rf)
     world = rw.choice(["real-numba"] * 5 + ["numpy"] * 3 + ["sim-numba"] * 1 + ["sim-cuda"] * 1)
     sim = world.startswith("sim")
     N = rw.choice([16, 24, 33, 48, 64]) if sim else rw.choice([16, 33, 64, 100, 150, 200, 300])
@@ -275,6 +291,35 @@ def materialise(sc, with_faults=True):
     return obj, bufs, logical
 
 
+def _execute_tiny(sc, obj, canon, out):
+    """2 x 2 records: rows are channels.  Oracle: the reference estimator on the rows (the canonical-layout run would
+    share any transposition mistake, so it cannot be the oracle here)."""
+    cfg = sc["cfg"]
+    _, f, L = sc["ops"][1]
+    f = f * cfg["fs"]
+    out.count("tiny_2x2_record")
+    out.count(f"layout_{sc['layout']}")
+    out.nontrivial = True
+    with W.analysis_world(sc["world"]):
+        try:
+            r = SC.build_analyzer(obj, cfg).compute_single_bin(f, L=L)
+        except Exception as e:
+            out.violate("exception", f"op=single layout={sc['layout']} dtype={sc['dtype']}", f"2x2 record: {type(e).__name__}: {str(e)[:160]}")
+            return
+    w = SC.reference_window(cfg["win"], cfg["psll"], L)
+    starts = np.asarray(r.D[0])
+    ref, _, _, _ = RM.ref_stats(canon[0], canon[1], starts, L, w, 2 * np.pi * f / cfg["fs"], cfg["order"])
+    tXX, tYY, tmu, _, tM2 = RM.ref_stats.last_tols
+    got = (float(r.XX[0]), float(r.YY[0]), complex(r.XY[0]).real, complex(r.XY[0]).imag)
+    for nm, g, rr, tol in zip(("XX", "YY", "XY_re", "XY_im"), got, ref[:4], (tXX, tYY, tmu, tmu)):
+        if not abs(g - rr) <= tol + 1e-300:
+            out.violate("result_depends_on_layout", f"world={sc['world']['world']} field={nm}",
+                        f"2x2 record given as {sc['layout']} ({sc['dtype']}): {nm}={g!r}, reference estimator with rows as channels gives {rr!r}")
+            break
+    out.observe(list(got))
+    out.summary = {"tiny": True, "layout": sc["layout"]}
+
+
 def _snapshot(bufs):
     return [(b.tobytes(), b.flags.writeable, b.flags.c_contiguous, b.flags.f_contiguous, b.shape, b.strides, b.dtype.str) for b in bufs]
 
@@ -291,6 +336,8 @@ def execute(sc, out):
         return
     canon = np.ascontiguousarray(np.where(np.isfinite(logical), logical, 0.0), dtype=np.float64)
     nfault = int(np.size(logical) - np.count_nonzero(np.isfinite(logical)))
+    if sc.get("tiny"):
+        return _execute_tiny(sc, obj, canon, out)
     snap0 = _snapshot(bufs)
     aliasing = isinstance(obj, np.ndarray) and obj.dtype == np.float64 and obj.flags.c_contiguous and obj.dtype.isnative
     if aliasing:
